@@ -214,6 +214,16 @@ func (c *fctx) copyCall(x *ast.CallExpr) string {
 		c.writeThrough(e, ind, dv, "("+s+".take "+n+".toNat)")
 		return n
 	}
+	// a slice field of a struct that this function itself builds (a local variable, not a parameter or the receiver)
+	if sel, ok := ast.Unparen(dstE).(*ast.SelectorExpr); ok {
+		if id, ok := ast.Unparen(sel.X).(*ast.Ident); ok {
+			if v, ok := c.info().Uses[id].(*types.Var); ok && v.Parent() != c.fi.Pkg.Types.Scope() && !c.isParamOrRecv(v) {
+				e.add(ind, fmt.Sprintf("let %s : Int := min (Go.len %s) (Go.len %s)", n, c.expr(dstE), s))
+				c.assignTo(e, ind, dstE, fmt.Sprintf("(Go.writeAt %s (0 : Int) (%s.take %s.toNat))", c.expr(dstE), s, n), false)
+				return n
+			}
+		}
+	}
 	// a plain slice variable (the caller's buffer): it is updated and handed back
 	id, ok := ast.Unparen(dstE).(*ast.Ident)
 	if !ok {
@@ -634,4 +644,17 @@ func isBytesBuffer(t types.Type) bool {
 	}
 	nt, ok := t.(*types.Named)
 	return ok && nt.Obj().Pkg() != nil && nt.Obj().Pkg().Path() == "bytes" && nt.Obj().Name() == "Buffer"
+}
+
+func (c *fctx) isParamOrRecv(v *types.Var) bool {
+	sig := c.fi.Obj.Type().(*types.Signature)
+	if sig.Recv() == v {
+		return true
+	}
+	for i := 0; i < sig.Params().Len(); i++ {
+		if sig.Params().At(i) == v {
+			return true
+		}
+	}
+	return false
 }
